@@ -221,7 +221,8 @@ def cbmc_cmd(cfile, inst, witness, trace=False):
     cmd = ['cbmc', cfile, '-I' + RT, '--function', 'vf_entry', '--unwind', str(unwind),
            '--no-malloc-may-fail', '--drop-unused-functions',
            '--json-ui', '--object-bits', str(inst.get('object_bits', 10))]
-    us = ['%s:%d' % (l, nthr + 1) for l in RT_LOOPS]
+    us = ['%s:%d' % (l, nthr + 1) for l in RT_LOOPS
+          if not (inst.get('engine') == 'cbmc-seq' and l.startswith('vf_entry'))]
     for k, v in inst.get('unwindset', {}).items():
         us.append('%s:%d' % (k, v))
     for k, v in (inst.get('_unwind_fn_resolved') or {}).items():
@@ -251,8 +252,8 @@ def cbmc_cmd(cfile, inst, witness, trace=False):
         if 'preempts' in inst:
             cmd += ['-DVF_PREEMPTS=%d' % inst['preempts']]
         i = cmd.index('--unwindset')
-        cmd[i + 1] += ',vf_entry.0:%d,vf_others_done.0:%d,vf_all_done.0:%d,vf_any_enabled.0:%d' % (
-            steps + 1, nthr + 1, nthr + 1, nthr + 1)
+        cmd[i + 1] += ',vf_entry.0:%d,vf_entry.1:%d,vf_others_done.0:%d,vf_all_done.0:%d,vf_any_enabled.0:%d' % (
+            nthr + 1, steps + 1, nthr + 1, nthr + 1, nthr + 1)
     for k, v in inst.get('rt_defs', {}).items():
         cmd.append('-D%s=%s' % (k, v))
     if witness:
